@@ -233,9 +233,20 @@ func c20InscCheck(c c20Insc) (fs []rep.Finding) {
 		args.EnrichedArgs = &bscript.EnrichedInscriptionArgs{OpReturnData: parts}
 	}
 	cls := fmt.Sprintf("ct=%s,data=%s", lenClass(c.CT), lenClass(c.Data))
-	for round := 0; round < 2; round++ { // twice: the second call must not see leftovers of the first
+	for round := 0; round < 3; round++ { // twice: the second call must not see leftovers of the first; then the specific-ordinal entry point
 		tx := bt.NewTx()
-		if err := tx.Inscribe(args); err != nil {
+		if round == 2 {
+			// satoshi 3 of input 1 (inputs of 5 and 7 satoshis) is to carry the inscription:
+			// first-in-first-out puts it at offset 8, so the output in front must hold 8 satoshis
+			extra := refP2PKH(fill(20, 0x77))
+			_ = tx.FromUTXOs(&bt.UTXO{TxID: txid32(1), Vout: 0, Satoshis: 5, LockingScript: libScript(prefix)}, &bt.UTXO{TxID: txid32(2), Vout: 1, Satoshis: 7, LockingScript: libScript(prefix)})
+			if err := tx.InscribeSpecificOrdinal(args, 1, 3, libScript(extra)); err != nil {
+				return append(fs, rep.F("InscribeSpecificOrdinal|error|"+cls, err.Error()))
+			}
+			if len(tx.Outputs) != 2 || tx.Outputs[0].Satoshis != 8 || !bytes.Equal(*tx.Outputs[0].LockingScript, extra) {
+				return append(fs, rep.F("InscribeSpecificOrdinal|separator-output", "the output in front of the inscription does not hold the 8 satoshis that precede the chosen ordinal"))
+			}
+		} else if err := tx.Inscribe(args); err != nil {
 			return append(fs, rep.F("Inscribe|error|"+cls, err.Error()))
 		}
 		if !bytes.Equal(*args.LockingScriptPrefix, prefix) {
@@ -278,7 +289,7 @@ func lenClass(n int) string {
 
 func init() {
 	p := register(&Prop{ID: "C20", Level: "exploration",
-		Rule: "exhaustive product: 4 flow pairs (list->accept, list->accept2Dummies, bid->accept, bid2Dummies->accept2Dummies) x seller/buyer keys (2x2 quick, 3x3 thorough) x funding UTXOs all locked to the buyer's key / each to a key of its own x prices {1,2,546,1000,1000000} x ordinal UTXO of 1 (and 2) satoshis, plain or inscription script x funding sets of 2..4 UTXOs whose values are placed around the thresholds (price, price+1, reference-fee boundary -2..+3, ample) with the UTXO exceeding the price at every position x 3 fee quotes; the partially signed tx crosses a serialisation boundary. Oracle for every completed transaction: each input accepted by Execute(WithTx, WithForkID, WithAfterGenesis) against its spent output; listing flows keep the seller's output byte-identical at the index of the seller's input; FIFO satoshi assignment puts the ordinal's first satoshi in the buyer's script; inputs-outputs >= reference fee of the actual size. Inscriptions: content-type lengths {0,1,75,76,255,256} x payload lengths {0,1,75,76,255,256,65535,65536} x enrichment {none,1,2 parts} x prefix with/without spare capacity, inscribed twice: ParseInscription returns the same content type, data and 25-byte prefix. distinct_nontrivial = distinct completed transactions + inscription cases",
+		Rule: "exhaustive product: 4 flow pairs (list->accept, list->accept2Dummies, bid->accept, bid2Dummies->accept2Dummies) x seller/buyer keys (2x2 quick, 3x3 thorough) x funding UTXOs all locked to the buyer's key / each to a key of its own x prices {1,2,546,1000,1000000} x ordinal UTXO of 1 (and 2) satoshis, plain or inscription script x funding sets of 2..4 UTXOs whose values are placed around the thresholds (price, price+1, reference-fee boundary -2..+3, ample) with the UTXO exceeding the price at every position x 3 fee quotes; the partially signed tx crosses a serialisation boundary. Oracle for every completed transaction: each input accepted by Execute(WithTx, WithForkID, WithAfterGenesis) against its spent output; listing flows keep the seller's output byte-identical at the index of the seller's input; FIFO satoshi assignment puts the ordinal's first satoshi in the buyer's script; inputs-outputs >= reference fee of the actual size. Inscriptions: content-type lengths {0,1,75,76,255,256} x payload lengths {0,1,75,76,255,256,65535,65536} x enrichment {none,1,2 parts} x prefix with/without spare capacity, inscribed twice through Inscribe and once through InscribeSpecificOrdinal (ordinal 3 of the second input; the separating output must hold the satoshis in front of it): ParseInscription returns the same content type, data and 25-byte prefix. distinct_nontrivial = distinct completed transactions + inscription cases",
 	})
 	sF := NewSpace(p, "flows", c20Check)
 	sI := NewSpace(p, "inscriptions", c20InscCheck)
